@@ -194,6 +194,87 @@ def exhaustive(tier):
                     for taken_out in (False, True):
                         for what in ("append", "insert0", "insert-end", "setitem", "extend1", "iadd", "assign-list"):
                             yield {"mode": "reinsert", "configtype": configtype, "n": n, "j": j, "how": how, "taken_out": taken_out, "what": what}
+    for depth in (1, 2):
+        for order in ("validator-first", "fields-first"):
+            yield {"mode": "declared-order", "depth": depth, "order": order}
+
+
+def _declared_order_case(case, R):
+    """A validator is registered on a nested schema that came into being through attribute access - before or after that
+    schema got its fields. Either way it must run, and its verdict must count, for every load and validate()."""
+    cc = sandbox._state["cc"]
+    schema = cc.Schema()
+    calls = []
+
+    def rule(cfg):
+        calls.append(1)
+        if cfg.lo is not None and cfg.hi is not None and cfg.lo > cfg.hi:
+            raise ValueError("lo must not exceed hi")
+    path = ("tls",) if case["depth"] == 1 else ("net", "tls")
+
+    def sub():
+        node = schema
+        for k in path:
+            node = getattr(node, k)
+        return node
+    if case["order"] == "validator-first":
+        cc.validator(sub())(rule)      # the nested schema exists (auto-created) but has no fields yet
+        sub().lo = cc.IntField(default=0)
+        sub().hi = cc.IntField(default=10)
+    else:
+        sub().lo = cc.IntField(default=0)
+        sub().hi = cc.IntField(default=10)
+        cc.validator(sub())(rule)
+    schema.other = cc.IntField(default=1)
+    R.label("validator-declared:" + case["order"])
+    R.nontrivial = True
+    tree_ok, tree_bad = {"lo": 1, "hi": 2}, {"lo": 5, "hi": 2}
+    for k in reversed(path):
+        tree_ok, tree_bad = {k: tree_ok}, {k: tree_bad}
+    for route in ("load_tree", "loads", "validate"):
+        cfg = schema()
+        del calls[:]
+        try:
+            if route == "load_tree":
+                cfg.load_tree(tree_ok)
+            elif route == "loads":
+                cfg.loads(cc.ConfigFormat.get("json").dumps(cfg, tree_ok), "json")
+            else:
+                cfg.validate()
+            err = None
+        except Exception as exc:
+            err = exc
+        R.check(err is None and calls, "ran", "declared-%s:%s" % (case["order"], route),
+                lambda: "valid data, %s: %s; the nested schema's validator ran %d time(s)" % (route, "returned" if err is None else "raised %r" % (err,), len(calls)))
+        cfg = schema()
+        try:
+            if route == "load_tree":
+                cfg.load_tree(tree_bad)
+            elif route == "loads":
+                cfg.loads(cc.ConfigFormat.get("json").dumps(cfg, tree_bad), "json")
+            else:
+                node = cfg
+                for k in path:
+                    node = getattr(node, k)
+                node.lo = 5
+                node.hi = 2
+                cfg.validate()
+            err = None
+        except Exception as exc:
+            err = exc
+        R.check(isinstance(err, cc.ValidationError), "sound", "declared-%s:%s" % (case["order"], route),
+                lambda: "data that breaks the nested schema's validator, %s: %s" % (route, "returned normally" if err is None else "raised %r" % (err,)))
+        errors = []
+        try:
+            cfg2 = schema()
+            node = cfg2
+            for k in path:
+                node = getattr(node, k)
+            node.lo, node.hi = 5, 2
+            errors = cfg2.validate(collect_errors=True)
+        except Exception as exc:
+            errors = [exc]
+        R.check(bool(errors), "collect", "declared-%s" % case["order"], "collecting mode returned no error for data that breaks the nested schema's validator")
 
 
 def _reinsert_case(case, R):
@@ -256,6 +337,8 @@ def _reinsert_case(case, R):
 def run_case(case, R):
     if case.get("mode") == "reinsert":
         return _reinsert_case(case, R)
+    if case.get("mode") == "declared-order":
+        return _declared_order_case(case, R)
     cc = sandbox._state["cc"]
     spec = case["spec"]
     if _has(spec, lambda c, d: c["kind"] == "featureflag"):
